@@ -428,6 +428,11 @@ class Parser:
         call_node = self.parse_expression()
         if not isinstance(call_node, nodes.Call):
             self.fail("expected call", node.lineno)
+        if any(kwarg.key == "caller" for kwarg in call_node.kwargs):
+            self.fail(
+                "the call of a call block can't be given a 'caller' keyword argument",
+                node.lineno,
+            )
         node.call = call_node
         node.body = self.parse_statements(("name:endcall",), drop_needle=True)
         return node
@@ -908,6 +913,11 @@ class Parser:
                     # Parsing a kwarg
                     ensure(dyn_kwargs is None)
                     key = self.stream.current.value
+                    if any(key == kwarg.key for kwarg in kwargs):
+                        self.fail(
+                            f"keyword argument {key!r} repeated",
+                            self.stream.current.lineno,
+                        )
                     self.stream.skip(2)
                     value = self.parse_expression()
                     kwargs.append(nodes.Keyword(key, value, lineno=value.lineno))
